@@ -2,6 +2,8 @@
 
 package verifrt
 
+import "time"
+
 // Reference model of C02 / C19 (DESIGN.md appendix A.2): sort order with nulls
 // first ascending, id tie-break, skip/limit window, total count. Everything is
 // written with the fork-free combinators so that one assertion is one term.
@@ -13,6 +15,7 @@ type Row struct {
 	F  *float64
 	B  *bool
 	M  bool
+	T  *time.Time
 }
 
 type SortField struct {
@@ -61,6 +64,12 @@ func CmpField(f string, x, y *Row, xi, yi int) int64 {
 			vlt, vgt = *x.F < *y.F, *x.F > *y.F
 		}
 		lt, gt = nullLess(x.F == nil, y.F == nil, vlt, vgt)
+	case "t":
+		var vlt, vgt bool
+		if x.T != nil && y.T != nil {
+			vlt, vgt = x.T.Before(*y.T), x.T.After(*y.T)
+		}
+		lt, gt = nullLess(x.T == nil, y.T == nil, vlt, vgt)
 	case "m":
 		lt, gt = And(Not(x.M), y.M), And(x.M, Not(y.M))
 	case "b":
